@@ -9,9 +9,12 @@
    servers x tries + 1 + 1 + 3), the selection rule of C09 and termination.   *)
 EXTENDS Retry
 
-CONSTANTS NS, TRIES, ROTATE
-VARIABLES ck      \* BADCOOKIE resends so far (cookie_try_count)
-mvars == <<rvars, ck>>
+CONSTANTS NS, TRIES, ROTATE,
+          NSU,      \* size of the server universe (list edits choose among servers 1..NSU)
+          EDITS     \* number of list edits the environment may make while the query is outstanding
+VARIABLES ck,     \* BADCOOKIE resends so far (cookie_try_count)
+          ed      \* list edits so far
+mvars == <<rvars, ck, ed>>
 QID == 1
 
 NewQuery == [t |-> 1, qt |-> 1, api |-> "send", probe |-> FALSE, st |-> "tosend", try |-> 0, ntx |-> 0, to |-> 0, fd |-> 0, srv |-> 0,
@@ -21,13 +24,14 @@ NewQuery == [t |-> 1, qt |-> 1, api |-> "send", probe |-> FALSE, st |-> "tosend"
 MInit == /\ cfg = [nsrv |-> NS, tries |-> TRIES, timeout |-> 300, maxtimeout |-> 0, rotate |-> ROTATE, retrydelay |-> 5000, usevc |-> 0,
                    igntc |-> 0, nocheckresp |-> 0]
          /\ now = 0
-         /\ srv = [s \in 1..NS |-> [fails |-> 0, nextRetry |-> 0, m |-> EmptyMetrics, idx |-> s]]
+         /\ srv = [s \in 1..NS |-> [fails |-> 0, nextRetry |-> 0, m |-> EmptyMetrics, idx |-> s, dying |-> FALSE]]
          /\ fdi = <<>> /\ owedF = [s \in 1..NS |-> 0] /\ owedO = [s \in 1..NS |-> 0]
          /\ q = (QID :> NewQuery)
          /\ proc = [in |-> FALSE, nonfd |-> FALSE, nrecv |-> 0, inbox |-> <<>>] /\ oos = FALSE
-         /\ ck = 0
+         /\ ck = 0 /\ ed = 0
 
-Keep == UNCHANGED <<cfg, fdi, owedF, owedO, proc, oos>>
+Keep == UNCHANGED <<cfg, fdi, owedF, owedO, proc, oos, ed>>
+NoEdit == DyingIn(srv) = {}      \* a list edit runs to completion inside one API call: nothing else happens meanwhile
 R == q[QID]
 
 (* system: transmit to a server the policy allows *)
@@ -39,40 +43,63 @@ Send == /\ R.st = "tosend"
         /\ UNCHANGED <<now, srv, ck>> /\ Keep
 
 (* environment: outcomes of the attempt in flight *)
-Final == /\ R.st = "inflight"
+Final == /\ NoEdit /\ R.st = "inflight"
          /\ q' = [q EXCEPT ![QID] = [R EXCEPT !.st = "ending", !.endst = "SUCCESS"]]
          /\ srv' = [srv EXCEPT ![R.srv].fails = 0]
          /\ UNCHANGED <<now, ck>> /\ Keep
-ErrorRcode == /\ R.st = "inflight"
+ErrorRcode == /\ NoEdit /\ R.st = "inflight"
               /\ srv' = FailServer(R.srv)
               /\ q' = [q EXCEPT ![QID] = Requeued(R, TRUE, "ESERVFAIL")]
               /\ UNCHANGED <<now, ck>> /\ Keep
-FormErr == /\ R.st = "inflight" /\ R.edns /\ ~R.tcp
+FormErr == /\ NoEdit /\ R.st = "inflight" /\ R.edns /\ ~R.tcp
            /\ q' = [q EXCEPT ![QID] = [R EXCEPT !.st = "tosend", !.edns = FALSE, !.reqsrv = R.srv]]
            /\ UNCHANGED <<now, srv, ck>> /\ Keep
-Truncated == /\ R.st = "inflight" /\ ~R.tcp
+Truncated == /\ NoEdit /\ R.st = "inflight" /\ ~R.tcp
              /\ q' = [q EXCEPT ![QID] = [R EXCEPT !.st = "tosend", !.tcp = TRUE]]
              /\ UNCHANGED <<now, srv, ck>> /\ Keep
-BadCookie == /\ R.st = "inflight" /\ ~R.tcp /\ R.edns
+BadCookie == /\ NoEdit /\ R.st = "inflight" /\ ~R.tcp /\ R.edns
              /\ ck' = ck + 1
              /\ q' = [q EXCEPT ![QID] = [Requeued(R, FALSE, "") EXCEPT !.tcp = (ck + 1 >= 3)]]
              /\ UNCHANGED <<now, srv>> /\ Keep
-Timeout == /\ R.st = "inflight"
+Timeout == /\ NoEdit /\ R.st = "inflight"
            /\ now' = R.dhi
            /\ srv' = FailServer(R.srv)
            /\ q' = [q EXCEPT ![QID] = Requeued([R EXCEPT !.to = @ + 1], TRUE, "ETIMEOUT")]
            /\ UNCHANGED ck /\ Keep
-ConnFail == /\ R.st = "inflight"
+ConnFail == /\ NoEdit /\ R.st = "inflight"
             /\ srv' = FailServer(R.srv)
             /\ q' = [q EXCEPT ![QID] = Requeued(R, TRUE, "ECONNREFUSED")]
             /\ UNCHANGED <<now, ck>> /\ Keep
 
-MNext == Send \/ Final \/ ErrorRcode \/ FormErr \/ Truncated \/ BadCookie \/ Timeout \/ ConnFail
-MSpec == MInit /\ [][MNext]_mvars /\ WF_mvars(Send) /\ WF_mvars(Final \/ Timeout)
+(* environment: the application replaces the server list while the query is outstanding (the new list is any
+   non-empty arrangement of servers of the universe); system: the removed servers are destroyed one by one, the
+   query being re-sent (to whatever is a member at that moment) as soon as it was requeued *)
+Lists == {L \in UNION {[1..n -> 1..NSU] : n \in 1..NSU} : \A i, j \in 1..Len(L) : i # j => L[i] # L[j]}
+EditList == /\ ed < EDITS /\ NoEdit /\ R.st = "inflight"
+            /\ \E L \in Lists :
+                 /\ srv' = ListEdit(srv, q, L)
+                 /\ owedF' = [s \in DOMAIN ListEdit(srv, q, L) |-> 0] /\ owedO' = [s \in DOMAIN ListEdit(srv, q, L) |-> 0]
+            /\ ed' = ed + 1
+            /\ UNCHANGED <<cfg, now, fdi, q, proc, oos, ck>>
+DestroyNext == /\ ~NoEdit /\ R.st # "tosend"
+               /\ LET cand == {s \in DyingIn(srv) : \A d \in DyingIn(srv) : d = s \/ BeforeIn(srv, s, d)}    \* first in list order
+                      s == CHOOSE x \in cand : TRUE
+                  IN /\ srv' = [x \in (DOMAIN srv) \ DestroySet(srv, q, s) |-> srv[x]]
+                     /\ q' = AfterDestroy(srv, q, s)
+                     /\ owedF' = [x \in (DOMAIN srv) \ DestroySet(srv, q, s) |-> 0]
+                     /\ owedO' = [x \in (DOMAIN srv) \ DestroySet(srv, q, s) |-> 0]
+               /\ UNCHANGED <<cfg, now, fdi, proc, oos, ck, ed>>
+
+MNext == Send \/ Final \/ ErrorRcode \/ FormErr \/ Truncated \/ BadCookie \/ Timeout \/ ConnFail \/ EditList \/ DestroyNext
+MSpec == MInit /\ [][MNext]_mvars /\ WF_mvars(Send) /\ WF_mvars(Final \/ Timeout) /\ WF_mvars(DestroyNext)
 
 (* C06: bounded transmissions; the protocol-mandated resends are each bounded on their own *)
-Budget == R.ntx <= NS * TRIES + 1 + 1 + 3
-TryBound == R.try <= NS * TRIES
+Budget == R.ntx <= NSU * TRIES + 1 + 1 + 3       \* NSU = NS when the list is never edited
+TryBound == R.try <= NSU * TRIES
+(* every transmission after the first is paid for: by a try, or by one of the bounded protocol-mandated resends *)
+Paid == R.ntx <= R.try + 1 + (IF R.edns THEN 0 ELSE 1) + (IF R.tcp THEN 1 ELSE 0) + ck
+(* a query is never left in flight on a server that is no longer a member *)
+OnMember == R.st = "inflight" => R.srv \in DOMAIN srv
 CookieBound == ck <= 3 \/ R.tcp
 (* C09: the server in use belonged to the least-failed class when chosen -- expressed on the next state by Send's guard;
    as a state invariant: a query that is waiting to be sent with no requested server always has a legal choice *)
